@@ -1,6 +1,6 @@
 """C12 — Readers deliver exactly the addressed bytes and fail atomically at bounds."""
 from ..extract import AnalysisBroken
-from ..facts import CALLS, fmt_term
+from ..facts import CTORS, CALLS, fmt_term
 from ..flow import Engine, Summaries, norm_cmp, final_site_facts, fmt_fact
 from ..prove import prove_le, Width
 from ..report import ok, bad
@@ -395,9 +395,22 @@ def check(F, run, tier):
             # language rule: no object (hence no buffer a MemoryReader spans) is larger than PTRDIFF_MAX bytes
             inv = set(inv) | {norm_cmp("<=", M("streamSize"), ("const", (1 << 63) - 1))}
         obs, _ = r_narrow(F, S, fn, entry=frozenset(inv), explicit_only=True)
+        # a position spelled out as the stream library's own offset type on its way into seekg / std::fpos is the conversion
+        # `seekg(position)` performs implicitly: a value of 2^63 or more becomes a negative offset, which seekg refuses
+        # (standard-library contract, as for gcount below)
+        to_fpos = set()
+        for nd in fn.nodes:
+            if (nd["k"] in CTORS and (nd.get("ctor_rec") or "").startswith("std::fpos")) or \
+                    (nd["k"] == "CXXMemberCallExpr" and nd.get("fname") == "seekg" and (nd.get("mrec") or "").startswith("std::basic_istream")):
+                for a in nd.get("args", []):
+                    x = fn.n(fn.strip(a, casts=False))
+                    if x["k"] in ("CXXStaticCastExpr", "CStyleCastExpr", "CXXFunctionalCastExpr") and "streamoff" in (x.get("t") or "") + (x.get("td") or ""):
+                        to_fpos.add(fn.loc(x["id"]))
         for o in obs:
             if "accumulation in" in o.required:
                 continue        # cursor advances: decided by R-CURSOR above
+            if o.site in to_fpos and o.instance.split("#")[-1].startswith("narrow:"):
+                continue
             if o.instance.endswith("file.gcount()"):
                 continue        # std::streamsize gcount() is the non-negative count of the last read (standard-library contract)
             run.add(o)
